@@ -42,8 +42,8 @@ C_META = clause(U, 'post:meta_unchanged_but_kind', ['C10'], 'B')
 C_UA = clause(U, 'post:ua_follows', ['C11'], 'B')
 C_SRC = clause(U, 'post:sources_wf', ['C08'], 'B')
 C_DEPTHS = clause(U, 'post:depths_unchanged', ['C08'], 'B')
-C_FRAME = clause(U, 'frame:inputs_unchanged', ['C16'], 'B')
-C_FRESH = clause(U, 'frame:fresh_sources', ['C16'], 'B')
+C_FRAME = clause(U, 'frame:inputs_unchanged', ['C16', 'C08'], 'B')
+C_FRESH = clause(U, 'frame:fresh_sources', ['C16', 'C08'], 'B')
 L_ORDER = clause(U, 'law:order_independent', ['C03'], 'B')
 L_ZERO = clause(U, 'law:mask_zero', ['C03', 'C09'], 'B')
 L_MM = clause(U, 'law:mask_mask', ['C03'], 'B')
